@@ -363,6 +363,13 @@ def transcript(exe, kind, seed, par, variant):
         # relative order of heap addresses is REVERSED with respect to run 0 (address-dependent ordering shows up)
         env["MALLOC_MMAP_THRESHOLD_"] = "0"
         env["MALLOC_TOP_PAD_"] = "0"
+        # locale / threading environment: nothing in kernel/ or utility/ reads std::locale, setlocale, getenv,
+        # std::thread or hardware_concurrency (see environment_lint), so these must make no difference
+        env["LANG"] = "de_DE.UTF-8"
+        env["LC_ALL"] = "de_DE.UTF-8"
+        env["LC_NUMERIC"] = "de_DE.UTF-8"
+        env["OMP_NUM_THREADS"] = "3"
+        env["TZ"] = "Pacific/Kiritimati"
     args = [exe, kind, str(seed)] + ["%s=%s" % kv for kv in sorted(par.items())] + ["drawfmt=1"]
     p = subprocess.run(args, env=env, stdout=subprocess.PIPE, stderr=subprocess.PIPE, timeout=600)
     return p.returncode, p.stdout, p.stderr.decode(errors="replace"), args
@@ -583,6 +590,27 @@ def retry_build(fn, *a, **kw):
             vv.log("build raced with the cache garbage collector, retrying")
 
 
+def environment_lint(snap):
+    """library code that reads the process environment (locale, threads, environment variables, clocks used as data)"""
+    pat = re.compile(r"std::locale|setlocale|\.imbue\(|std::thread|hardware_concurrency|std::async|#pragma omp|getenv")
+    found = set()
+    for sd in ("kernel", "utility"):
+        for dp, dn, fn in os.walk(os.path.join(snap, sd)):
+            if "/test" in dp:
+                continue
+            for f in fn:
+                if f.endswith((".h", ".cc", ".tcc")):
+                    p = os.path.join(dp, f)
+                    for l in open(p, errors="replace"):
+                        s = l.strip()
+                        if s.startswith(("//", "*", "/*")):
+                            continue
+                        m = pat.search(s)
+                        if m:
+                            found.add("%s: %s" % (os.path.relpath(p, snap), m.group(0)))
+    return sorted(found)
+
+
 # ----------------------------------------------------------------- run
 def run(ck):
     L = retry_build(vv.build_lib, "asan")
@@ -671,6 +699,13 @@ def run(ck):
     inproc_runs(ck, runner, icfgs)
     ck.coverage["double_run_label"] = "TESTING (not proof): whole-run determinism on the listed configurations only"
 
+    envuse = environment_lint(L["snap"])
+    ck.coverage["library_reads_locale_threads_environment"] = envuse or ["nothing in kernel/ and utility/ (std::locale, setlocale, "
+                                                                        "imbue, std::thread, hardware_concurrency, std::async, "
+                                                                        "OpenMP, getenv): the double run nevertheless changes "
+                                                                        "LANG/LC_ALL/LC_NUMERIC/OMP_NUM_THREADS/TZ in its second leg"]
+    for u in envuse:
+        ck.notes.append("library code reads the process environment: " + u)
     unexpected, found = randomness_lint(L["snap"])
     ck.coverage["randomness_sources_outside_random_engine"] = ["%s: %s" % x for x in found]
     for f, what in unexpected:
